@@ -116,14 +116,14 @@ func (f *Frame) appendOp(x *ssa.Call, c *ssa.CallCommon, at string, st *State) *
 	} else {
 		inner = vc.declare(f.nm("app_inner"), "(Array Int "+comp.VSort+")")
 		vc.ctr++
-		j := fmt.Sprintf("j!%d", vc.ctr)
-		// prefix
-		vc.assume(at, fmt.Sprintf("(forall ((%s Int)) (! (=> (and (<= 0 %s) (< %s %s)) (= (select %s (+ %s %s)) (select %s (+ (s_off %s) %s)))) :pattern ((select %s (+ %s %s)))))",
-			j, j, j, n, inner, rOff, j, oldInner, s, j, inner, rOff, j), "append: prefix kept")
+		j := fmt.Sprintf("p!%d", vc.ctr)
+		// prefix (by absolute position p in the result array)
+		vc.assume(at, fmt.Sprintf("(forall ((%[1]s Int)) (! (=> (and (<= %[2]s %[1]s) (< %[1]s (+ %[2]s %[3]s))) (= (select %[4]s %[1]s) (select %[5]s (+ (s_off %[6]s) (- %[1]s %[2]s))))) :pattern ((select %[4]s %[1]s))))",
+			j, rOff, n, inner, oldInner, s), "append: prefix kept")
 		if !tIsStr {
 			tInner := vc.define(f.nm("app_src"), "(Array Int "+comp.VSort+")", sel(h, tArr))
-			vc.assume(at, fmt.Sprintf("(forall ((%s Int)) (! (=> (and (<= 0 %s) (< %s %s)) (= (select %s (+ %s %s %s)) (select %s (+ %s %s)))) :pattern ((select %s (+ %s %s %s)))))",
-				j, j, j, kk, inner, rOff, n, j, tInner, tOff, j, inner, rOff, n, j), "append: appended elements")
+			vc.assume(at, fmt.Sprintf("(forall ((%[1]s Int)) (! (=> (and (<= (+ %[2]s %[3]s) %[1]s) (< %[1]s (+ %[2]s %[3]s %[7]s))) (= (select %[4]s %[1]s) (select %[5]s (+ %[6]s (- %[1]s (+ %[2]s %[3]s)))))) :pattern ((select %[4]s %[1]s))))",
+				j, rOff, n, inner, tInner, tOff, kk), "append: appended elements")
 		}
 		// in place: everything outside the written window is unchanged
 		vc.assume(at, implies(inplace, fmt.Sprintf("(forall ((%s Int)) (! (=> (or (< %s (+ (s_off %s) %s)) (>= %s (+ (s_off %s) %s))) (= (select %s %s) (select %s %s))) :pattern ((select %s %s))))",
@@ -140,6 +140,10 @@ func (f *Frame) appendOp(x *ssa.Call, c *ssa.CallCommon, at string, st *State) *
 			fmt.Sprintf("(bcat (bview %s (s_off %s) %s) %s)", oldInner, s, n, tview)), "append: byte view is the concatenation")
 		vc.assume(at, implies(inplace, eq(fmt.Sprintf("(bview %s (s_off %s) %s)", inner, s, n), fmt.Sprintf("(bview %s (s_off %s) %s)", oldInner, s, n))), "append: in place keeps the view of the original slice")
 		vc.assume(at, eq(fmt.Sprintf("(blen (bview %s %s %s))", inner, rOff, total), total), "append: view length")
+	}
+	if single {
+		// ground instance: the last element of the result is the appended one
+		vc.assume(at, eq(sel(inner, "(+ "+rOff+" "+n+")"), sel(sel(h, tArr), tOff)), "append: last element")
 	}
 	st.heap[comp.Name] = vc.define(comp.Name, comp.Sort, sto(h, rArr, inner))
 	r := vc.define(f.nm(x.Name()), "Slice", fmt.Sprintf("(mk_slice %s %s %s %s)", rArr, rOff, total, ite(inplace, "(s_cap "+s+")", newCap)))
@@ -166,8 +170,8 @@ func (f *Frame) copyOp(x *ssa.Call, c *ssa.CallCommon, at string, st *State) *Va
 	inner := vc.declare(f.nm("copy_inner"), "(Array Int "+comp.VSort+")")
 	vc.ctr++
 	j := fmt.Sprintf("j!%d", vc.ctr)
-	vc.assume(at, fmt.Sprintf("(forall ((%s Int)) (! (=> (and (<= 0 %s) (< %s %s)) (= (select %s (+ (s_off %s) %s)) (select %s (+ (s_off %s) %s)))) :pattern ((select %s (+ (s_off %s) %s)))))",
-		j, j, j, n, inner, d, j, srcIn, s, j, inner, d, j), "copy: copied elements")
+	vc.assume(at, fmt.Sprintf("(forall ((%[1]s Int)) (! (=> (and (<= (s_off %[2]s) %[1]s) (< %[1]s (+ (s_off %[2]s) %[3]s))) (= (select %[4]s %[1]s) (select %[5]s (+ (s_off %[6]s) (- %[1]s (s_off %[2]s)))))) :pattern ((select %[4]s %[1]s))))",
+		j, d, n, inner, srcIn, s), "copy: copied elements")
 	vc.assume(at, fmt.Sprintf("(forall ((%s Int)) (! (=> (or (< %s (s_off %s)) (>= %s (+ (s_off %s) %s))) (= (select %s %s) (select %s %s))) :pattern ((select %s %s))))",
 		j, j, d, j, d, n, inner, j, oldD, j, inner, j), "copy: rest unchanged")
 	if isByteSlice(c.Args[0].Type()) {
